@@ -23,9 +23,22 @@ T3 == Inst(<<12, 4>>, << <<0, 0, 4, 4>>, <<4, 0, 8, 4>>, <<8, 0, 12, 4>> >>, <<0
 \* no fixed module at all: two refinable cells, soft + flippable hard
 T4 == Inst(<<8, 4>>, << <<0, 0, 4, 4>>, <<4, 0, 8, 4>> >>, <<0, 0>>, << Soft(<<6, 2>>), Hard(1, 2, 0) >>, 2, 2)
 
+\* an L-shaped hard module (12x6 trunk + 6x6 branch, centroid on the lattice): not symmetric in either axis, so a
+\* mirrored placement differs from the original in both
+HardL(f, x, y) == [ kind |-> "hard", flip |-> f, rects |-> << <<x, y, x + 12, y + 6>>, <<x, y + 6, x + 6, y + 12>> >>, c0 |-> <<x + 5, y + 5>> ]
+FixedR(x1, y1, x2, y2) == [ kind |-> "fixed", flip |-> 0, rects |-> << <<x1, y1, x2, y2>> >>, c0 |-> <<(x1 + x2) \div 2, (y1 + y2) \div 2>> ]
+Two12 == << <<0, 0, 12, 12>>, <<12, 0, 24, 12>> >>
+\* 24x12 die: soft + flippable L + fixed 12x12 block; soft + flippable L on two free cells; rigid L + fixed
+X1(thr) == Inst(<<24, 12>>, Two12, <<0, 3>>, << Soft(<<6, 6>>), HardL(1, 0, 0), FixedR(12, 0, 24, 12) >>, thr, 1)
+X2(thr) == Inst(<<24, 12>>, Two12, <<0, 0>>, << Soft(<<18, 6>>), HardL(1, 6, 0) >>, thr, 1)
+X3(thr) == Inst(<<24, 12>>, Two12, <<0, 2>>, << HardL(0, 0, 0), FixedR(12, 0, 24, 12) >>, thr, 2)
+\* solutions replayed into the real extract_solution (ratios k/4: 0.25, 0.5, 0.75 are exact in binary)
+SolQuick == { X1(3), X2(3) }
+SolThorough == { X1(3), X1(2), X2(3), X2(2), X3(3) }
+
 QuickInstances == { Q1(2), Q2 }
-\* thr = Den (threshold 1.0) is included on purpose: refine then halves the fixed cell too, and the clauses still hold
-ThoroughInstances == { Q1(2), Q1(3), Q2, T3, T4 }
+\* thr = Den (threshold 1.0) is included on purpose: every non-empty free cell is then refined, the fixed one never
+ThoroughInstances == { Q1(2), Q1(3), Q2, T3, T4, X3(2) }
 
 \* generation: <<die (doubled lattice units)>>, variant, area scale (quarters of a grid square), threshold %, alpha %,
 \* iteration limit, initial refinement
